@@ -209,7 +209,7 @@ def run_case(case):
             shutil.copytree(ref, w)
             fc = (w / b.name).with_suffix(".cbin")
             use_scratch = bool(rng.integers(0, 2)) and "nc" not in kw     # flat binaries have no metadata to copy
-            sdir = w / "scratch" if use_scratch else None
+            sdir = (w / "scratch" if rng.random() < 0.5 else w / "scratch" / "not" / "there" / "yet") if use_scratch else None
             before = M.snapshot(w)
 
             def dc(self, chunk_idx, _k=k):
